@@ -326,7 +326,22 @@ pub fn series_on_one_thread(seed: u64, n: usize) -> Vec<(Kv, Result<Vec<u8>, Str
     std::thread::spawn(move || {
         let mut r = crate::rng::Rng::new(seed, 0x5e21e5);
         let mut out = vec![];
+        // very long series are SPARSE: every 256th build is one of three marker maps that share a node shape at different addresses,
+        // all other builds are trivial (they touch almost nothing of whatever a thread might keep between builders) - so markers
+        // meet again at distances 256, 512, ..., 65536, ... builders, each time as a DIFFERENT marker (256 and 65536 are 1 mod 3)
+        let sparse = n > 20_000;
+        let markers: [Kv; 3] = [
+            vec![(b"ab".to_vec(), 0), (b"ac".to_vec(), 0)],
+            vec![(b"0q".to_vec(), 0), (b"xab".to_vec(), 0), (b"xac".to_vec(), 0)],
+            vec![(b"00q".to_vec(), 3), (b"0r".to_vec(), 1), (b"yyab".to_vec(), 0), (b"yyac".to_vec(), 0)],
+        ];
         for i in 0..n {
+            if sparse {
+                let kv: Kv = if i % 256 == 0 { markers[(i / 256) % 3].clone() } else if i % 2 == 0 { vec![] } else { vec![(b"t".to_vec(), (i % 5) as u64)] };
+                let res = std::panic::catch_unwind(|| plain_build(0, &kv)).unwrap_or_else(|_| Err("the build panicked".into()));
+                out.push((kv, res));
+                continue;
+            }
             let kv = tiny_map(&mut r);
             if i % 7 == 3 {
                 let mut b = Builder::memory();
